@@ -6,6 +6,7 @@ CONSTANTS
   UseQueue = TRUE
   SkipQueue = FALSE
   Faults = TRUE
+  FaultKinds = {"crash", "reject", "third"}
   MaxC = 8
   RepStatuses = {"SUCCESSFUL", "FAILED"}
   Atomic = FALSE
